@@ -9,18 +9,18 @@ package model
 //@ spec signed(a AlternativeWithCriteria, c Criterion) real = a.Criteria[c.Id] * mult(c)
 
 //@ func (*Criterion).Multiplier
-//@   property C03 C11 C12 C13 C14 C19 C07 C09 C15 C20
+//@   property C03 C11 C12 C13 C14 C19 C07 C09 C15 C20 C01 C04 C05 C06 C16
 //@   nopanic
 //@   ensures [mult] real(result) == mult(*c)
 //@   ensures [pm1] result == 1 || result == -1
 
 //@ func (*AlternativeWithCriteria).CriterionRawValue
-//@   property C03 C11 C12 C13 C14 C16 C17 C20 C01 C04 C09
+//@   property C03 C11 C12 C13 C14 C16 C17 C20 C01 C04 C09 C05 C06 C07 C15 C18 C19
 //@   panics_iff [missing] !(criterion.Id in a.Criteria)
 //@   ensures [raw] result == a.Criteria[criterion.Id]
 
 //@ func (*AlternativeWithCriteria).CriterionValue
-//@   property C03 C11 C12 C13 C01 C04 C09 C14 C16
+//@   property C03 C11 C12 C13 C01 C04 C09 C14 C16 C05 C06 C19 C20
 //@   panics_iff [missing] !(criterion.Id in a.Criteria)
 //@   ensures [signed] result == signed(*a, *criterion)
 
@@ -31,7 +31,7 @@ package model
 //@   opaque
 
 //@ func CriteriaValuesRange
-//@   property C14 C16 C17 C13 C01 C03 C04 C09
+//@   property C14 C16 C17 C13 C01 C03 C04 C09 C07 C12 C18 C19 C20
 //@   ensures [nonnil] result != nil
 //@   ensures [declared_first] criterion.ValuesRange != nil ==> result == criterion.ValuesRange
 //@   ensures [observed_bounds] criterion.ValuesRange == nil ==> fresh(result) && (forall k int :: 0 <= k && k < len(*alternatives) ==>
@@ -51,7 +51,7 @@ package model
 //@ spec altAt(a []AlternativeWithCriteria, b []AlternativeWithCriteria, k int) AlternativeWithCriteria = k < len(a) ? a[k] : b[k - len(a)]
 
 //@ func (*DecisionMakingParams).AllAlternatives
-//@   property C09 C14 C16 C17 C07 C08 C20
+//@   property C09 C14 C16 C17 C07 C08 C20 C01 C11 C12 C13 C18 C19
 //@   ensures [len] len(result) == len(p.ConsideredAlternatives) + len(p.NotConsideredAlternatives)
 //@   ensures [concat] forall k int :: 0 <= k && k < len(result) ==> result[k] == altAt(p.ConsideredAlternatives, p.NotConsideredAlternatives, k)
 //@   ensures [C09 fresh] fresh(result)
@@ -59,19 +59,19 @@ package model
 // ---- weights.go
 
 //@ func (*Weights).Fetch
-//@   property C07 C15 C16 C18 C20
+//@   property C07 C15 C16 C18 C20 C01 C03 C09 C11 C12 C13 C14 C19
 //@   panics_iff [missing] !(key in *w)
 //@   ensures [value] result == (*w)[key]
 
 //@ func (*Weights).Copy
-//@   property C16 C07 C09
+//@   property C16 C07 C09 C01
 //@   ensures [copy] fresh(result) && fresh(*result) && (forall k string :: (k in *result <==> k in *w) && (k in *w ==> (*result)[k] == (*w)[k]))
 //@   loop 1 invariant [copied] forall k string :: seen(k) ==> (k in result && result[k] == (*w)[k])
 //@   loop 1 invariant [only] forall k string :: k in result ==> seen(k)
 //@   loop 1 invariant [ctx] fresh(result) && result != nil
 
 //@ func (*Weights).PreserveOnly
-//@   property C07 C15
+//@   property C07 C15 C01 C11 C12 C13 C14
 //@   panics_iff [missing] exists i int :: 0 <= i && i < len(*criteria) && !((*criteria)[i].Id in *w)
 //@   ensures [restricted] fresh(result) && fresh(*result) && (forall i int :: 0 <= i && i < len(*criteria) ==> (*criteria)[i].Id in *result && (*result)[(*criteria)[i].Id] == (*w)[(*criteria)[i].Id])
 //@   ensures [only] forall k string :: k in *result ==> exists i int :: 0 <= i && i < len(*criteria) && (*criteria)[i].Id == k
@@ -80,7 +80,7 @@ package model
 //@   loop 1 invariant [ctx] fresh(cpy) && cpy != nil
 
 //@ func (*Weights).Merge
-//@   property C07 C18
+//@   property C07 C18 C01 C11 C12 C13 C14
 //@   panics_iff [overlap] exists k string :: k in *w && k in *other
 //@   ensures [union] fresh(result) && fresh(*result) && (forall k string :: (k in *result <==> (k in *w || k in *other)))
 //@   ensures [values] forall k string :: (k in *w ==> (*result)[k] == (*w)[k]) && (k in *other ==> (*result)[k] == (*other)[k])
@@ -101,13 +101,13 @@ package model
 // ---- decision-maker.go: lookups
 
 //@ func FetchAlternative
-//@   property C01 C07 C09 C16 C20 C08 C03 C04 C05 C06
+//@   property C01 C07 C09 C16 C20 C08 C03 C04 C05 C06 C11 C12 C13 C14 C15 C17 C18 C19
 //@   panics_iff [unknown] !(exists k int :: 0 <= k && k < len(*a) && (*a)[k].Id == id)
 //@   ensures [first_match] exists k int :: 0 <= k && k < len(*a) && result == (*a)[k] && (*a)[k].Id == id && (forall j int :: 0 <= j && j < k ==> (*a)[j].Id != id)
 //@   loop 1 invariant [none_before] forall j int :: 0 <= j && j < iter ==> (*a)[j].Id != id
 
 //@ func UpdateAlternatives
-//@   property C07 C09 C16 C08 C20
+//@   property C07 C09 C16 C08 C20 C01 C18 C19
 //@   panics_iff [unknown] exists i int :: 0 <= i && i < len(*old) && !(exists k int :: 0 <= k && k < len(*newOnes) && (*newOnes)[k].Id == (*old)[i].Id)
 //@   ensures [shape] fresh(result) && fresh(*result) && len(*result) == len(*old)
 //@   ensures [matched] forall i int :: 0 <= i && i < len(*old) ==> (*result)[i].Id == (*old)[i].Id &&
@@ -118,7 +118,7 @@ package model
 //@             (exists k int :: 0 <= k && k < len(*newOnes) && res[i] == (*newOnes)[k] && (forall j int :: 0 <= j && j < k ==> (*newOnes)[j].Id != (*old)[i].Id))
 
 //@ func FetchAlternatives
-//@   property C01 C09 C20 C07 C08 C03 C04 C05 C06
+//@   property C01 C09 C20 C07 C08 C03 C04 C05 C06 C11 C12 C13 C14 C15 C16 C17 C18 C19
 //@   panics_iff [unknown] exists i int :: 0 <= i && i < len(*ids) && !(exists k int :: 0 <= k && k < len(*a) && (*a)[k].Id == (*ids)[i])
 //@   ensures [shape] fresh(result) && fresh(*result) && len(*result) == len(*ids) && cap(*result) == len(*ids)
 //@   ensures [matched] forall i int :: 0 <= i && i < len(*ids) ==> (*result)[i].Id == (*ids)[i] && (exists k int :: 0 <= k && k < len(*a) && (*result)[i] == (*a)[k])
@@ -158,12 +158,12 @@ package model
 // ---- criterion.go
 
 //@ func (*Criteria).FindWeight
-//@   property C07 C15 C20 C09
+//@   property C07 C15 C20 C09 C01 C03 C11 C12 C13 C14 C16 C18 C19
 //@   panics_iff [missing] !(criterion.Id in *weights)
 //@   ensures [value] result == (*weights)[criterion.Id]
 
 //@ func (*Criteria).ZipWithWeights
-//@   property C07 C15 C20 C09
+//@   property C07 C15 C20 C09 C01 C03 C11 C12 C13 C14
 //@   panics_iff [missing] exists i int :: 0 <= i && i < len(*c) && !((*c)[i].Id in *weights)
 //@   ensures [zipped] fresh(result) && fresh(*result) && len(*result) == len(*c)
 //@             && forall i int :: 0 <= i && i < len(*c) ==> (*result)[i].Criterion == (*c)[i] && (*result)[i].Weight == (*weights)[(*c)[i].Id]
@@ -171,7 +171,7 @@ package model
 //@   loop 1 invariant [zipped] forall i int :: 0 <= i && i < iter ==> (*c)[i].Id in *weights && weightedCriteria[i].Criterion == (*c)[i] && weightedCriteria[i].Weight == (*weights)[(*c)[i].Id]
 
 //@ func (*Criteria).SortByWeights
-//@   property C07 C15 C02 C09 C20 C16 C18 C19
+//@   property C07 C15 C02 C09 C20 C16 C18 C19 C11
 //@   panics_iff [missing] exists i int :: 0 <= i && i < len(*c) && !((*c)[i].Id in weights)
 //@   ensures [len_is_criteria] fresh(result) && fresh(*result) && len(*result) == len(*c)
 //@   ensures [members] forall k int :: 0 <= k && k < len(*result) ==> exists j int :: 0 <= j && j < len(*c) && (*result)[k].Criterion == (*c)[j] && (*result)[k].Weight == weights[(*c)[j].Id]
@@ -182,13 +182,13 @@ package model
 //@   loop 1 invariant [filled] forall i int :: 0 <= i && i < iter ==> (*c)[i].Id in weights && result[i].Criterion == (*c)[i] && result[i].Weight == weights[(*c)[i].Id]
 
 //@ func (*Criteria).Add
-//@   property C07 C18 C09 C15 C20
+//@   property C07 C18 C09 C15 C20 C01 C19
 //@   panics_iff [duplicate] exists k int :: 0 <= k && k < len(*c) && (*c)[k].Id == criterion.Id
 //@   ensures [appended] len(result) == len(*c) + 1 && result[len(*c)] == *criterion && forall k int :: 0 <= k && k < len(*c) ==> result[k] == (*c)[k]
 //@   loop 1 invariant [none] forall k int :: 0 <= k && k < iter ==> (*c)[k].Id != criterion.Id
 
 //@ func (*Criteria).Validate
-//@   property C20 C07 C09 C15
+//@   property C20 C07 C09 C15 C01 C03 C04 C05 C06 C08 C11 C12 C13 C14 C16 C17 C18 C19
 //@   panics_iff [duplicate_or_bad_range] (exists i int, j int :: 0 <= i && i < j && j < len(*c) && (*c)[i].Id == (*c)[j].Id)
 //@             || (exists i int :: 0 <= i && i < len(*c) && (*c)[i].ValuesRange != nil && (*c)[i].ValuesRange.Max <= (*c)[i].ValuesRange.Min)
 //@   loop 1 invariant [seen] forall j int :: 0 <= j && j < iter ==> (*c)[j].Id in criteriaSet
@@ -257,11 +257,11 @@ package model
 // ---- normalization.go
 
 //@ func GetScaleRatio
-//@   property C18 C19 C20
+//@   property C18 C19 C20 C01 C07 C09
 //@   nopanic
 //@   ensures [ratio] result == ((currentRange.Max - currentRange.Min) != 0.0 ? (target.Max - target.Min) / (currentRange.Max - currentRange.Min) : 0.0)
 //@ func GetNormalScaleRatio
-//@   property C19 C18 C20
+//@   property C19 C18 C20 C09
 //@   ensures [ratio] result == ((currentRange.Max - currentRange.Min) != 0.0 ? 1.0 / (currentRange.Max - currentRange.Min) : 0.0)
 //@ func ValuesRangeWithGroundZero
 //@   property C18 C09
@@ -272,12 +272,12 @@ package model
 //@ spec rescaled(c Criterion, v real, cur utils.ValueRange, scale real, target utils.ValueRange) real =
 //@      c.Type == Cost ? (cur.Max - v) * scale + target.Min : (v - cur.Min) * scale + target.Min
 //@ func scaleCriterion
-//@   property C18
+//@   property C18 C01 C07 C09 C20
 //@   panics_iff [missing] !(c.Id in a.Criteria)
 //@   ensures [rescaled] result == rescaled(*c, a.Criteria[c.Id], *currentRange, scale, *target)
 
 //@ func RescaleCriterion
-//@   property C18
+//@   property C18 C01 C07 C09 C20
 //@   ensures [fresh] fresh(result) && result != nil
 //@   ensures [all] forall k int :: 0 <= k && k < len(*alternatives) ==> (*alternatives)[k].Id in result
 //@   ensures [only] forall q string :: q in result ==> exists k int :: 0 <= k && k < len(*alternatives) && (*alternatives)[k].Id == q
@@ -295,7 +295,7 @@ package model
 //@ pred fractionOf(x real, w real) = (w > 0.0 ==> 0.0 <= x && x < w) && (w < 0.0 ==> w < x && x <= 0.0) && (w == 0.0 ==> x == 0.0)
 
 //@ func NewCriterionValue
-//@   property C18 C07 C15 C20
+//@   property C18 C07 C15 C20 C01 C11
 //@   fnparam generator ensures 0.0 <= result && result < 1.0
 //@   ensures [fraction_of_reference] fractionOf(result, (*previousWeights)[baseCriterion.Id])
 
@@ -306,7 +306,7 @@ package model
 //@   && (forall q string :: q != name ==> ((q in nw.Criteria <==> q in od.Criteria) && (q in od.Criteria ==> nw.Criteria[q] == od.Criteria[q])))
 
 //@ func (*AlternativeWithCriteria).WithCriterion
-//@   property C07 C18 C01 C03 C04 C09 C14 C16
+//@   property C07 C18 C01 C03 C04 C09 C14 C16 C19 C20
 //@   panics_iff [exists] name in a.Criteria
 //@   ensures [extended] fresh(result) && fresh(result.Criteria) && extendedBy(*result, *a, name) && result.Criteria[name] == value
 //@   loop 1 invariant [copied] forall k string :: seen(k) ==> (k in criteria && criteria[k] == a.Criteria[k])
@@ -314,14 +314,14 @@ package model
 //@   loop 1 invariant [ctx] fresh(criteria) && criteria != nil && !(name in a.Criteria)
 
 //@ func AddCriterionToAlternatives
-//@   property C07 C18 C01 C03 C04 C09 C14 C16
+//@   property C07 C18 C01 C03 C04 C09 C14 C16 C20
 //@   ensures [shape] fresh(result) && fresh(*result) && len(*result) == len(*alternatives)
 //@   ensures [extended] forall i int :: 0 <= i && i < len(*alternatives) ==> extendedBy((*result)[i], (*alternatives)[i], newCriterion.Id) && fresh((*result)[i].Criteria)
 //@   loop 1 invariant [ctx] fresh(newAlts) && len(newAlts) == len(*alternatives)
 //@   loop 1 invariant [extended] forall i int :: 0 <= i && i < iter ==> extendedBy(newAlts[i], (*alternatives)[i], newCriterion.Id) && fresh(newAlts[i].Criteria)
 
 //@ func SortAlternativesByName
-//@   property C18 C09 C02 C01 C03 C04 C14 C16
+//@   property C18 C09 C02 C01 C03 C04 C14 C16 C07
 //@   ensures [fresh_copy] fresh(result) && fresh(*result) && len(*result) == len(*alternatives)
 //@   ensures [members] forall k int :: 0 <= k && k < len(*result) ==> exists j int :: 0 <= j && j < len(*alternatives) && (*result)[k] == (*alternatives)[j]
 //@   ensures [all_present] forall j int :: 0 <= j && j < len(*alternatives) ==> exists k int :: 0 <= k && k < len(*result) && (*result)[k] == (*alternatives)[j]
@@ -330,53 +330,53 @@ package model
 // cntp: how many of the first n criteria have an id that starts with p
 //@ spec cntp(c []Criterion, p string, n int) int = n <= 0 ? 0 : cntp(c, p, n - 1) + (has_prefix(c[n - 1].Id, p) ? 1 : 0)
 //@ func (*Criteria).countWithPrefix
-//@   property C18 C07 C09 C15 C20
+//@   property C18 C07 C09 C15 C20 C01 C19
 //@   ensures [nonneg] result >= 0
 //@   ensures [ids_starting_with_the_prefix] result == cntp(*c, prefix, len(*c))
 //@   loop 1 invariant [nonneg] concealedCriteriaCount >= 0
 //@   loop 1 invariant [so_far] concealedCriteriaCount == cntp(*c, prefix, iter)
 //@ func firstFreeName
-//@   property C18 C07 C09 C15 C20
+//@   property C18 C07 C09 C15 C20 C01 C19
 //@   ensures [name] result == (count == 0 ? name : name + itoa(count))
 
 //@ func (*Criteria).NotUsedName
-//@   property C18 C07 C19
+//@   property C18 C07 C19 C01 C09 C15 C20
 //@   ensures [name_then_count_of_ids_with_that_prefix] result == (cntp(*c, name, len(*c)) == 0 ? name : name + itoa(cntp(*c, name, len(*c))))
 //@ func (*Criterion).IsGain
-//@   property C14 C12 C13 C03
+//@   property C14 C12 C13 C03 C01 C09 C19 C07 C15 C20
 //@   nopanic
 //@   ensures [gain_unless_declared_cost] result <==> c.Type != Cost
 //@ func (*Criteria).First
-//@   property C18 C19
+//@   property C18 C19 C07 C09 C15 C20
 //@   ensures [first] len(*c) > 0 && result == (*c)[0]
 //@ func (*Criteria).Weight
-//@   property C15 C07
+//@   property C15 C07 C09 C11 C16 C18 C19 C20
 //@   panics_iff [no_such_criterion_or_weight] !(0 <= criterionIndex && criterionIndex < len(*c)) || !((*c)[criterionIndex].Id in weights)
 //@   ensures [of_that_criterion] (*c)[criterionIndex].Id in weights && result == weights[(*c)[criterionIndex].Id]
 //@ func (*Criteria).Names
-//@   property C20 C18
+//@   property C20 C18 C19 C07 C09 C15
 //@   nopanic
 //@   ensures [ids_in_order] fresh(result) && fresh(*result) && len(*result) == len(*c) && forall i int :: 0 <= i && i < len(*c) ==> (*result)[i] == (*c)[i].Id
 //@   loop 1 invariant [so_far] fresh(result) && len(result) == len(*c) && forall i int :: 0 <= i && i < iter ==> result[i] == (*c)[i].Id
 //@ func (*Criteria).ShallowCopy
-//@   property C09 C07
+//@   property C09 C07 C19 C15 C20
 //@   nopanic
 //@   ensures [copy] fresh(result) && fresh(*result) && len(*result) == len(*c) && (forall i int :: 0 <= i && i < len(*c) ==> (*result)[i] == (*c)[i]) && unchanged(*c)
 //@ func (*Criteria).Len
-//@   property C20
+//@   property C20 C07 C09 C15
 //@   nopanic
 //@   ensures result == len(*c)
 //@ func (Criterion).Identifier
-//@   property C20
+//@   property C20 C01 C07 C11 C15 C18 C09
 //@   nopanic
 //@   ensures result == c.Id
 //@ func (*WeightedCriterion).AsWeights
-//@   property C07 C18
+//@   property C07 C18 C09 C15 C20
 //@   nopanic
 //@   ensures [single] result != nil && fresh(result) && c.Id in *result && (*result)[c.Id] == c.Weight && forall q string :: q in *result ==> q == c.Id
 
 //@ func SingleWeight
-//@   property C18 C07 C03 C04
+//@   property C18 C07 C03 C04 C01 C11
 //@   nopanic
 //@   ensures [single] fresh(result.Weights) && criterion.Id in result.Weights && result.Weights[criterion.Id] == value
 //@             && forall q string :: q in result.Weights ==> q == criterion.Id
@@ -418,7 +418,7 @@ package model
 //@      (*biases)[i].Props.ApplyProbability > draw(appfn(gen, dm.BiasApplyRandomSeed), i)
 
 //@ func (*DecisionMaker).processBiases
-//@   property C07 C08 C09 C20 C01 C15 C16 C17 C18 C19
+//@   property C07 C08 C09 C20 C01 C15 C16 C17 C18 C19 C03 C04 C05 C06 C11 C12 C13 C14
 //@   fnparam biasApplyProbGenerator pure
 //@   fnparam generator ensures 0.0 <= result && result < 1.0
 //@   requires forall i int :: 0 <= i && i < len(*biases) ==> (*biases)[i].Bias != nil && (*biases)[i].Props != nil
@@ -433,6 +433,8 @@ package model
 //@             && (*result1)[i].(BiasParams).ApplyProbability == (*biases)[i].Props.ApplyProbability && !(*result1)[i].(BiasParams).Disabled
 //@   ensures [C08 not_fired_reports_null] forall i int :: 0 <= i && i < len(*biases) && !fires(dm, biasApplyProbGenerator, biases, i) ==> isnil((*result1)[i].(BiasParams).Props)
 //@   ensures [C08 nothing_fired_changes_nothing] (forall i int :: 0 <= i && i < len(*biases) ==> !fires(dm, biasApplyProbGenerator, biases, i)) ==> result0 == params
+//@   ensures [the_state_the_last_fired_bias_left_is_handed_on] forall i int :: 0 <= i && i < len(*biases) && fires(dm, biasApplyProbGenerator, biases, i)
+//@             && (forall j int :: i < j && j < len(*biases) ==> !fires(dm, biasApplyProbGenerator, biases, j)) ==> exists prev *DecisionMakingParams :: actsOn(*(*biases)[i].Bias, result0, prev)
 //@   ensures [C07 well_formed] result0 != nil && wellFormed(listenerOf(*listeners, dm.PreferenceFunction), *result0)
 //@   ensures [C07 same_alternatives] sameAlts(*result0, *params)
 //@   loop 1 invariant [draws] generator == appfn(biasApplyProbGenerator, dm.BiasApplyRandomSeed) && calls(generator) == iter
@@ -443,6 +445,8 @@ package model
 //@             && result[i].(BiasParams).ApplyProbability == (*biases)[i].Props.ApplyProbability && !result[i].(BiasParams).Disabled
 //@   loop 1 invariant [not_fired] forall i int :: 0 <= i && i < iter && !fires(dm, biasApplyProbGenerator, biases, i) ==> isnil(result[i].(BiasParams).Props)
 //@   loop 1 invariant [untouched] (forall i int :: 0 <= i && i < iter ==> !fires(dm, biasApplyProbGenerator, biases, i)) ==> current == params
+//@   loop 1 invariant [last_fired] forall i int :: 0 <= i && i < iter && fires(dm, biasApplyProbGenerator, biases, i)
+//@             && (forall j int :: i < j && j < iter ==> !fires(dm, biasApplyProbGenerator, biases, j)) ==> exists prev *DecisionMakingParams :: actsOn(*(*biases)[i].Bias, current, prev)
 //@   loop 1 hint [C07 C08 C16 each_bias_acts_on_the_state_the_previous_ones_left] (fires(dm, biasApplyProbGenerator, biases, i) ==> actsOn(*(*biases)[i].Bias, current, head(current)))
 //@             && (!fires(dm, biasApplyProbGenerator, biases, i) ==> current == head(current))
 
@@ -460,7 +464,7 @@ package model
 //@ pred validCriteria(c []Criterion) = distinctCriteria(c) && forall i int :: 0 <= i && i < len(c) && c[i].ValuesRange != nil ==> c[i].ValuesRange.Max > c[i].ValuesRange.Min
 
 //@ func (*DecisionMaker).validateAlternatives
-//@   property C20 C07 C08 C09
+//@   property C20 C07 C08 C09 C01 C03 C04 C05 C06 C11 C12 C13 C14 C15 C16 C17 C18 C19
 //@   panics_iff [missing_value] exists i int, c int :: 0 <= i && i < len(dm.KnownAlternatives) && 0 <= c && c < len(dm.Criteria) && !(dm.Criteria[c].Id in dm.KnownAlternatives[i].Criteria)
 //@   loop 1 invariant [outer] forall i int, c int :: 0 <= i && i < iter && 0 <= c && c < len(dm.Criteria) ==> dm.Criteria[c].Id in dm.KnownAlternatives[i].Criteria
 //@   loop 2 invariant [outer] forall j int, c int :: 0 <= j && j < i && 0 <= c && c < len(dm.Criteria) ==> dm.Criteria[c].Id in dm.KnownAlternatives[j].Criteria
@@ -468,7 +472,7 @@ package model
 //@   loop 2 invariant [ctx] 0 <= i && i < len(dm.KnownAlternatives) && a == dm.KnownAlternatives[i]
 
 //@ func (*DecisionMaker).NotConsideredAlternatives
-//@   property C09 C01 C07 C08 C20
+//@   property C09 C01 C07 C08 C20 C03 C04 C05 C06 C11 C12 C13 C14 C15 C16 C17 C18 C19
 //@   ensures [fresh] fresh(result)
 //@   ensures [only_unchosen_known] forall k int :: 0 <= k && k < len(*result) ==> exists j int :: 0 <= j && j < len(dm.KnownAlternatives) && (*result)[k] == dm.KnownAlternatives[j] && !chosen(*dm, dm.KnownAlternatives[j].Id)
 //@   ensures [all_unchosen] forall j int :: 0 <= j && j < len(dm.KnownAlternatives) && !chosen(*dm, dm.KnownAlternatives[j].Id) ==> exists k int :: 0 <= k && k < len(*result) && (*result)[k] == dm.KnownAlternatives[j]
@@ -492,7 +496,7 @@ package model
 //@   ensures forall l BiasListener :: listensFor(l, self) ==> validParams(l, result) && coversAll(l, result, dm.Criteria)
 
 //@ func (*DecisionMaker).prepareParams
-//@   property C07 C01 C20 C08 C09 C03 C04 C05 C06
+//@   property C07 C01 C20 C08 C09 C03 C04 C05 C06 C11 C12 C13 C14 C15 C16 C17 C18 C19
 //@   requires preferenceFunction != nil
 //@   ensures [state] fresh(result) && result.Criteria == dm.Criteria
 //@   ensures [considered_are_chosen] len(result.ConsideredAlternatives) == len(dm.ChoseToMake) && fresh(result.ConsideredAlternatives)
@@ -505,7 +509,7 @@ package model
 //@   ensures [parameters_parsed] forall l BiasListener :: listensFor(l, *preferenceFunction) ==> validParams(l, result.MethodParameters) && coversAll(l, result.MethodParameters, dm.Criteria)
 
 //@ func ChooseBiases
-//@   property C08 C20 C07
+//@   property C08 C20 C07 C01 C03 C04 C05 C06 C09 C11 C12 C13 C14 C15 C16 C17 C18 C19
 //@   ensures [enabled_known_biases] result != nil && forall k int :: 0 <= k && k < len(*result) ==>
 //@             (*result)[k].Props != nil && !(*result)[k].Props.Disabled && (*result)[k].Bias != nil
 //@             && (*result)[k].Props.Name in *available && *(*result)[k].Bias == (*available)[(*result)[k].Props.Name]
@@ -529,11 +533,14 @@ package model
 //@             && result[k].Props.Name in *available && *result[k].Bias == (*available)[result[k].Props.Name]
 //@   loop 1 invariant [at_most_requested] len(result) <= iter && (cap(result) == 0 || fresh(result))
 
+// evaluated(f, d): the ranking method f gives for the state d (that it is a function of the state is assumed, "assumes")
+//@ spec evaluated(f PreferenceFunction, d *DecisionMakingParams) *AlternativesRanking
 //@ ifacemethod PreferenceFunction.Evaluate
 //@   ensures result != nil
+//@   assumes [a_function_of_the_state_it_is_given] result == evaluated(self, dmp)
 
 //@ func (*DecisionMaker).MakeDecision
-//@   property C20 C07 C08 C09
+//@   property C20 C07 C08 C09 C01 C03 C04 C05 C06 C11 C12 C13 C14 C15 C16 C17 C18 C19
 //@   fnparam biasApplyProbGenerator pure
 //@   requires [registries_consistent] forall name string :: listensFor(listenerOf(biasListeners, name), funcOf(preferenceFunctions, name))
 //@   requires [distinct_alternatives] (forall i int, j int :: 0 <= i && i < j && j < len(dm.KnownAlternatives) ==> dm.KnownAlternatives[i].Id != dm.KnownAlternatives[j].Id)
@@ -541,6 +548,8 @@ package model
 //@   requires [some_criterion] len(dm.Criteria) > 0
 //@   ensures [C20 validated_before_answering] validCriteria(dm.Criteria)
 //@             && (forall i int, c int :: 0 <= i && i < len(dm.KnownAlternatives) && 0 <= c && c < len(dm.Criteria) ==> dm.Criteria[c].Id in dm.KnownAlternatives[i].Criteria)
+//@   returnhint [the_named_method_ranks_the_state_the_biases_left] *preferenceFunction == funcOf(preferenceFunctions, dm.PreferenceFunction)
+//@             && res == evaluated(*preferenceFunction, processedParams) && result.Result == *res && result.Biases == *biasesProps
 //@   ensures [C08 one_report_per_enabled_bias] result != nil && forall i int :: 0 <= i && i < len(result.Biases) ==> typeis(result.Biases[i], BiasParams) && !result.Biases[i].(BiasParams).Disabled
 
 // ---- alternative.go: evaluation results and rankings (C01, C03, C04)
@@ -549,7 +558,7 @@ package model
 //@ spec round8(v real) real = round(v * 100000000.0) / 100000000.0
 
 //@ func ValueAlternativeResult
-//@   property C03 C04 C01 C09 C14 C16
+//@   property C03 C04 C01 C09 C14 C16 C20
 //@   ensures [single_value] fresh(result) && result.Alternative == *alternative && typeis(result.Evaluation, EvaluationSingleValue) && val(*result) == value
 
 //@ func (*AlternativeResult).Value
@@ -648,11 +657,11 @@ package model
 
 // the weights of a request: what its "weights" parameter decodes to; a request without that parameter is rejected
 //@ func ExtractWeights
-//@   property C03 C20 C15
+//@   property C03 C20 C15 C07 C04
 //@   panics_if [weights_missing] !("weights" in dm.MethodParameters)
 //@   ensures [given] "weights" in dm.MethodParameters
 //@ func WeightsParamOnly
-//@   property C20
+//@   property C20 C03 C04
 //@   nopanic
 //@   ensures [schema_of_the_weights_parameter] typeis(result, WeightType)
 
@@ -681,14 +690,14 @@ package model
 // ---- copying / removing alternatives (C01, C09)
 
 //@ func CopyAlternatives
-//@   property C09 C01 C03 C04 C14 C16
+//@   property C09 C01 C03 C04 C14 C16 C11 C12 C13
 //@   nopanic
 //@   ensures [fresh_copy] fresh(result) && fresh(*result) && len(*result) == len(*alternatives) && forall k int :: 0 <= k && k < len(*alternatives) ==> (*result)[k] == (*alternatives)[k]
 //@   ensures [input_untouched] unchanged(*alternatives)
 
 //@ pred distinctAltIds(a []AlternativeWithCriteria) = forall i int, j int :: 0 <= i && i < j && j < len(a) ==> a[i].Id != a[j].Id
 //@ func ShuffleAlternatives
-//@   property C09 C01 C03 C04 C14 C16
+//@   property C09 C01 C03 C04 C14 C16 C11 C12 C13
 //@   fnparam generator ensures 0.0 <= result && result < 1.0
 //@   ensures [fresh_permutation] fresh(result) && fresh(*result) && len(*result) == len(*alternatives)
 //@   ensures [members] forall k int :: 0 <= k && k < len(*result) ==> exists j int :: 0 <= j && j < len(*alternatives) && (*result)[k] == (*alternatives)[j]
@@ -700,7 +709,7 @@ package model
 
 // RemoveAlternative deletes the first element with the given id IN PLACE (the caller must own the backing array)
 //@ func RemoveAlternative
-//@   property C09 C01 C03 C04 C14 C16
+//@   property C09 C01 C03 C04 C14 C16 C11 C12 C13
 //@   assigns alternatives
 //@   ensures [absent] (forall k int :: 0 <= k && k < len(alternatives) ==> old(alternatives[k]).Id != alternative.Id) ==> result == alternatives && unchanged(alternatives)
 //@   ensures [removed] forall i int :: 0 <= i && i < len(alternatives) && old(alternatives[i]).Id == alternative.Id && (forall k int :: 0 <= k && k < i ==> old(alternatives[k]).Id != alternative.Id) ==>
@@ -740,12 +749,54 @@ package model
 //@             && (!(q in weights) ==> old(cumw(params.ConsideredAlternatives, q, iter2 - 1, mapper)) == 0.0)
 
 //@ func WeightIdentity
-//@   property C15 C07
+//@   property C15 C07 C20
 //@   nopanic
 //@   ensures [identity] result == value
 
 // ---- the response entry of a bias: name and probability echoed, props = what the bias reported (null when it did not fire)
 //@ func UpdateBiasesProps
-//@   property C08 C09
+//@   property C08 C09 C01 C03 C04 C05 C06 C07 C11 C12 C13 C14 C15 C16 C17 C18 C19 C20
 //@   nopanic
 //@   ensures [echo_with_report] fresh(result) && result.Name == oldProps.Name && result.ApplyProbability == oldProps.ApplyProbability && result.Props == update && !result.Disabled
+
+// ---- wire format: the JSON names under which requests are read and responses are written (struct tags; encoding/json
+// itself is outside the verified code).  A renamed or omitempty field changes what a client sees without changing any Go value.
+//@ wire AlternativeResult
+//@   property C01 C03 C04 C09 C14 C16 C20
+//@   json Alternative=alternative Evaluation=evaluation
+//@ wire EvaluationSingleValue
+//@   property C01 C03 C04 C09 C14 C16 C20
+//@   json Value=value
+//@ wire AlternativeWithCriteria
+//@   property C01 C03 C04 C09 C14 C16 C20
+//@   json Id=id Criteria=criteria
+//@ wire AlternativesRankEntry
+//@   property C01 C03 C04 C09 C14 C16 C20
+//@   json BetterThanOrSameAs=betterThanOrSameAs
+//@ wire BiasParams
+//@   property C01 C07 C08 C20
+//@   json Name=name Disabled=disabled ApplyProbability=applyProbability Props=props
+//@ wire BiasWithProps
+//@   property C01 C07 C08 C20
+//@   json Bias=bias Props=props
+//@ wire BiasedResult
+//@   property C01 C07 C08 C20
+//@   json DMP=dm Props=props
+//@ wire Criterion
+//@   property C01 C07 C09 C15 C20
+//@   json Id=id Type=type ValuesRange=valuesRange,omitempty
+//@ wire WeightedCriterion
+//@   property C01 C07 C09 C15 C20
+//@   json Weight=weight
+//@ wire WeightType
+//@   property C01 C03 C04 C20
+//@   json Weights=weights
+//@ wire DecisionMaker
+//@   property C01 C07 C08 C09 C20
+//@   json PreferenceFunction=preferenceFunction Biases=biases BiasApplyRandomSeed=biasApplyRandomSeed KnownAlternatives=knownAlternatives ChoseToMake=choseToMake Criteria=criteria MethodParameters=methodParameters
+//@ wire DecisionMakerChoice
+//@   property C01 C07 C08 C09 C20
+//@   json Result=result Biases=biases
+//@ wire PreferenceFunctions
+//@   property C01 C20
+//@   json Functions=functions
